@@ -2,8 +2,12 @@ package sshproto
 
 import (
 	"bytes"
+	"crypto/ecdh"
+	"crypto/rand"
+	"encoding/hex"
 	"encoding/json"
 	"fmt"
+	"math/big"
 	"net"
 	"os"
 	"path/filepath"
@@ -42,9 +46,55 @@ type c27Case struct {
 	peerRekey            int    // (a) OpenSSH RekeyLimit in KiB; (b) refpeer RekeyEvery in bytes
 	rekeyAfterAuth       bool   // (b) only
 	userKey              int    // (b) only
+	// K-encoding class legs of part (b) (see c29k_test.go): refpeer searches / pins its ephemeral secret
+	kclass    string // "" = ordinary random secrets
+	kwidth    int
+	pin       byte   // Go side's Config.Rand pinned to this constant byte (0 = not pinned)
+	fixed     []byte // cached refpeer scalar for the pinned Go key
+	serverLeg bool   // Go server <- refpeer client instead of Go client -> refpeer server
 }
 
-func (k c27Case) tuple() string { return k.kex + "|" + k.host + "|" + k.ciph + "|" + k.effMAC() }
+func (k c27Case) ext() *refpeer.Ext {
+	if k.kclass == "" {
+		return nil
+	}
+	if k.fixed != nil {
+		return &refpeer.Ext{FixedSecret: k.fixed}
+	}
+	for _, cl := range kClasses {
+		if cl.name == k.kclass {
+			return &refpeer.Ext{AcceptK: kAccept(cl, k.kwidth), SearchLimit: 40 * cl.rarity}
+		}
+	}
+	panic("unknown K class " + k.kclass)
+}
+
+// kReached reports whether the last exchange's K (as refpeer computed it) is in the wanted class.
+func (k c27Case) kReached(rc *refpeer.Conn) bool {
+	if k.kclass == "" || rc == nil || rc.LastKex == nil {
+		return true
+	}
+	r := &refpeer.R{B: rc.LastKex.KEnc}
+	b := refpeer.MpintValue(r.Str()).Bytes()
+	for _, cl := range kClasses {
+		if cl.name == k.kclass {
+			return cl.pred(b, k.kwidth)
+		}
+	}
+	return false
+}
+
+func (k c27Case) tuple() string {
+	t := k.kex + "|" + k.host + "|" + k.ciph + "|" + k.effMAC()
+	if k.kclass != "" {
+		leg := "go-client"
+		if k.serverLeg {
+			leg = "go-server"
+		}
+		t += "|K:" + k.kclass + "|" + leg
+	}
+	return t
+}
 func (k c27Case) effMAC() string {
 	if isAEAD(k.ciph) {
 		return "(aead)"
@@ -172,6 +222,13 @@ func (k c27Case) classes(part string) []string {
 	case k.peerRekey > 0 || k.rekeyAfterAuth:
 		rc = "rekey:peer"
 	}
+	if k.kclass != "" {
+		leg := ":go-client-leg"
+		if k.serverLeg {
+			leg = ":go-server-leg"
+		}
+		return []string{part + ":K=" + k.kclass, part + leg, part + ":kex=" + k.kex, part + ":" + pc, part + ":" + rc}
+	}
 	return []string{part + ":kex=" + k.kex, part + ":host=" + k.host, part + ":cipher=" + k.ciph, part + ":mac=" + k.effMAC(), part + ":" + pc, part + ":" + rc}
 }
 
@@ -207,6 +264,7 @@ func c27Enumerate(l c27Lists, orders [][]int, planSeed uint64, partB bool) (mine
 }
 
 type c27Outcome struct {
+	kMissed      bool // the wanted K class was not reached (search exhausted or Go side not pinned)
 	k            c27Case
 	fail         string // property failure
 	inconclusive string // harness trouble
@@ -275,6 +333,10 @@ func TestC27(t *testing.T) {
 				t.Errorf("VF-VIOLATION: property=C27 %s", what)
 				continue
 			}
+			if o.kMissed {
+				c.Class(part + ":K-class-not-reached")
+				continue
+			}
 			cl := o.k.classes(part)
 			if o.newkeys >= 2 {
 				cl = append(cl, part+":rekeyed")
@@ -341,6 +403,25 @@ func TestC27(t *testing.T) {
 			return func(k c27Case) c27Outcome { return c27RunA(env, l, k) }, func() { l.Close() }
 		})
 		report("a", outs)
+		// K-encoding classes with the real OpenSSH client: the Go server's X25519 scalar is chosen (through
+		// ServerConfig.Rand) after the client's public value was read off the wire
+		var ak []c27Case
+		for i, cl := range kClasses[:3] {
+			k := c27Case{idx: 200000 + i, kex: []string{"curve25519-sha256", "curve25519-sha256@libssh.org"}[i%2], host: "ssh-ed25519", ciph: "aes128-ctr", mac: "hmac-sha2-256", kclass: cl.name, kwidth: 32, serverLeg: true}
+			k.pseed = mix(planSeed, uint64(k.idx))
+			k.payload = 40000 + int(k.pseed%20000)
+			k.peerRekey = 16
+			if ev.Mine(i) {
+				ak = append(ak, k)
+			}
+		}
+		report("aK", c27RunPool(ak, 2, func() (func(c27Case) c27Outcome, func()) {
+			l, err := net.Listen("tcp", "127.0.0.1:0")
+			if err != nil {
+				return func(k c27Case) c27Outcome { return c27Outcome{k: k, inconclusive: "listen: " + err.Error()} }, func() {}
+			}
+			return func(k c27Case) c27Outcome { return c27RunA(env, l, k) }, func() { l.Close() }
+		}))
 		if exh {
 			c.Exhaustive(fmt.Sprintf("(a) kex(%d) x host key algorithm(%d) x cipher/MAC effective pairs, OpenSSH client -> Go server", len(la.kex), len(la.host)), total)
 		} else {
@@ -373,6 +454,25 @@ func TestC27(t *testing.T) {
 		return c27RunB, func() {}
 	})
 	report("b", outs)
+	// K-encoding class legs: traffic and re-keys over exchanges whose shared secret needs the 0x00 pad or
+	// loses leading zero bytes (searched by refpeer / pinned through Config.Rand, cached scalars for X25519)
+	kcases := c27KCases(planSeed, lb)
+	var kmine []c27Case
+	for i, k := range kcases {
+		if ev.Mine(i) {
+			kmine = append(kmine, k)
+		}
+	}
+	kouts := c27RunPool(kmine, ev.Scale(4, 2), func() (func(c27Case) c27Outcome, func()) {
+		return func(k c27Case) c27Outcome {
+			if k.serverLeg {
+				return c27RunBS(k)
+			}
+			return c27RunB(k)
+		}, func() {}
+	})
+	report("bK", kouts)
+	c.Exhaustive("(b) K-encoding class legs (curve25519: 5 classes x 2 roles; one ECDH and one DH method: 1-zero-byte classes x 2 roles)", len(kcases))
 	if exh {
 		c.Exhaustive(fmt.Sprintf("(b) kex(%d) x host key algorithm(%d) x cipher/MAC effective pairs, Go client -> refpeer server", len(lb.kex), len(lb.host)), total)
 	} else {
@@ -434,6 +534,7 @@ func c27RunA(env *sshcli.Env, l net.Listener, k c27Case) c27Outcome {
 		err  error
 	}
 	done := make(chan srv, 1)
+	var kr *kRand
 	go func() {
 		nc, err := l.Accept()
 		if err != nil {
@@ -441,6 +542,13 @@ func c27RunA(env *sshcli.Env, l net.Listener, k c27Case) c27Outcome {
 			return
 		}
 		defer nc.Close()
+		if k.kclass != "" {
+			// choose the server's X25519 scalar after the client's plaintext KEX_ECDH_INIT was seen
+			sn := &kSniff{Conn: nc}
+			kr = &kRand{sn: sn, k: k}
+			cfg.Rand = kr
+			nc = sn
+		}
 		info, err := serveGoEcho(nc, cfg)
 		done <- srv{info, err}
 	}()
@@ -461,6 +569,9 @@ func c27RunA(env *sshcli.Env, l net.Listener, k c27Case) c27Outcome {
 	}
 	l.(*net.TCPListener).SetDeadline(time.Time{})
 	out.newkeys = strings.Count(res.Stderr, "SSH2_MSG_NEWKEYS received")
+	if kr != nil {
+		out.kMissed = !kr.reachedClass()
+	}
 	tail := func(s string) string {
 		var keep []string
 		for _, ln := range strings.Split(s, "\n") {
@@ -517,9 +628,11 @@ func c27RunB(k c27Case) c27Outcome {
 		err  error
 	}
 	sdone := make(chan srv, 1)
+	var rconn *refpeer.Conn
 	go func() {
 		s, err := refpeer.NewServer(b, refpeer.Config{Strict: true, ExtInfo: true, HostKeys: []refpeer.HostKey{hk}, HostKeyAlgos: []string{k.host},
-			Kex: []string{k.kex}, CiphersCS: []string{k.ciph}, MACsCS: []string{k.mac}})
+			Kex: []string{k.kex}, CiphersCS: []string{k.ciph}, MACsCS: []string{k.mac}, Ext: k.ext()})
+		rconn = s
 		if err != nil {
 			sdone <- srv{err: err}
 			return
@@ -538,6 +651,9 @@ func c27RunB(k c27Case) c27Outcome {
 		cfg := &ssh.ClientConfig{User: "vf", Auth: []ssh.AuthMethod{ssh.PublicKeys(uk.signer)}, HostKeyCallback: goHostKeyCallback(k.host), HostKeyAlgorithms: []string{k.host}}
 		cfg.KeyExchanges, cfg.Ciphers, cfg.MACs = []string{k.kex}, []string{k.ciph}, []string{k.mac}
 		cfg.RekeyThreshold = k.goRekey
+		if k.pin != 0 {
+			cfg.Rand = constReader(k.pin)
+		}
 		cc, chans, reqs, err := ssh.NewClientConn(a, "pipe:22", cfg)
 		if err != nil {
 			cdone <- cli{nil, err, "NewClientConn"}
@@ -583,6 +699,7 @@ func c27RunB(k c27Case) c27Outcome {
 		}
 		return out
 	}
+	out.kMissed = !k.kReached(rconn)
 	switch {
 	case cr.err != nil:
 		out.fail = fmt.Sprintf("Go client %s: %v; refpeer server: %v", cr.step, cr.err, sr.err)
@@ -601,4 +718,206 @@ func c27RunB(k c27Case) c27Outcome {
 		}
 	}
 	return out
+}
+
+// c27KCases builds the K-encoding class legs of part (b).
+func c27KCases(planSeed uint64, l c27Lists) []c27Case {
+	var out []c27Case
+	width := map[string]int{"curve25519-sha256": 32, "curve25519-sha256@libssh.org": 32, "ecdh-sha2-nistp256": 32, "diffie-hellman-group14-sha256": 256}
+	add := func(kex, class string, serverLeg bool) {
+		i := len(out)
+		h := mix(planSeed^0x4b, uint64(i)+1)
+		k := c27Case{idx: 100000 + i, kex: kex, kclass: class, kwidth: width[kex], serverLeg: serverLeg}
+		k.host = "ssh-ed25519" // pinned randomness must not reach ECDSA/RSA signing
+		// ciphers / MACs vary with the plan seed (the CBC+EtM finding class is avoided)
+		for j := 0; ; j++ {
+			k.ciph, k.mac = l.ciph[int((h>>8)+uint64(j))%len(l.ciph)], l.mac[int((h>>16)+uint64(j))%len(l.mac)]
+			if !k.inCBCEtM() {
+				break
+			}
+		}
+		k.pseed = h
+		k.payload = 9000 + int(h%30000)
+		k.peerRekey = 4000 + int((h>>24)%3000) // refpeer re-keys in the middle of the traffic
+		k.rekeyAfterAuth = !serverLeg
+		k.userKey = 0
+		pinByte := []byte{0x42, 0x17}[(h>>32)%2]
+		if class == "2-zero-bytes" || class == "3-zero-bytes" {
+			k.pin = pinByte
+			k.fixed, _ = hex.DecodeString(kCachedX25519[pinByte][class])
+		} else if serverLeg {
+			k.pin = byte(1 + (h>>40)%0x7e)
+		}
+		out = append(out, k)
+	}
+	for _, leg := range []bool{false, true} {
+		x := []string{"curve25519-sha256", "curve25519-sha256@libssh.org"}
+		for ci, cl := range kClasses {
+			add(x[(ci+map[bool]int{false: 0, true: 1}[leg])%2], cl.name, leg)
+		}
+		for _, kex := range []string{"ecdh-sha2-nistp256", "diffie-hellman-group14-sha256"} {
+			add(kex, "1-zero-byte-then-lt80", leg)
+			add(kex, "1-zero-byte-then-ge80", leg)
+		}
+	}
+	return out
+}
+
+// c27RunBS: Go server (randomness pinned) <- refpeer client that searched its ephemeral secret against
+// the server's pinned public value; publickey login, echo traffic, re-keys started by refpeer.
+func c27RunBS(k c27Case) c27Outcome {
+	out := c27Outcome{k: k}
+	var fam kKex
+	for _, x := range kKexes {
+		if x.name == k.kex {
+			fam = x
+		}
+	}
+	hint, inc := kGoServerPub(fam, k.pin)
+	if inc != "" {
+		out.inconclusive = inc
+		return out
+	}
+	uk := userKeys[k.userKey]
+	scfg := goServerCfg(k.kex, goHostSigner(k.host, "pipe"), uk)
+	scfg.Ciphers, scfg.MACs = []string{k.ciph}, []string{k.mac}
+	scfg.Rand = constReader(k.pin)
+	scfg.RekeyThreshold = k.goRekey
+	cfg := refpeer.Config{Strict: true, ExtInfo: true, Kex: []string{k.kex}, HostKeyAlgos: []string{k.host}, CiphersCS: []string{k.ciph}, MACsCS: []string{k.mac}, Ext: k.ext()}
+	cfg.Ext.PeerPubHint = hint
+	cfg.Ext.GexRequest = &[3]uint32{2048, 2048, 2048}
+	payload := payloadBytes(k.payload, k.pseed)
+	var rconn *refpeer.Conn
+	var gsid []byte
+	lo := runLink(goServerEcho(scfg, &gsid), func(nc net.Conn, cfg *refpeer.Config) error {
+		cl, err := refpeer.NewClient(nc, *cfg)
+		rconn = cl
+		if err != nil {
+			return fmt.Errorf("NewClient: %w", err)
+		}
+		res, err := refpeer.RunExec(cl, refpeer.ExecOptions{User: "vf", Key: uk.hk, Command: "echo", Payload: payload, Chunk: 1500, RekeyEvery: k.peerRekey})
+		out.newkeys = cl.KexCount
+		if err != nil {
+			return fmt.Errorf("RunExec: %w", err)
+		}
+		if !bytes.Equal(res.Echo, payload) || res.ExitStatus != 0 {
+			return fmt.Errorf("echo differs (%d of %d bytes, exit status %d)", len(res.Echo), len(payload), res.ExitStatus)
+		}
+		return nil
+	}, cfg)
+	out.kMissed = !k.kReached(rconn)
+	switch {
+	case lo.stalled:
+		out.inconclusive = fmt.Sprintf("stalled: go=%v ref=%v", lo.goErr, lo.refErr)
+	case lo.refErr != nil || lo.goErr != nil:
+		out.fail = fmt.Sprintf("Go server (randomness pinned to 0x%02x) <- refpeer client: refpeer: %v; Go server: %v", k.pin, lo.refErr, lo.goErr)
+	case rconn == nil || !bytes.Equal(gsid, rconn.SessionID):
+		out.fail = "session ids differ"
+	case out.newkeys < 2:
+		out.fail = fmt.Sprintf("refpeer re-keys every %d bytes over %d payload bytes but only %d key exchange(s) completed", k.peerRekey, k.payload, out.newkeys)
+	}
+	return out
+}
+
+// kSniff reads the client's plaintext KEX_ECDH_INIT off the server's connection.
+type kSniff struct {
+	net.Conn
+	mu      sync.Mutex
+	buf     []byte
+	version bool
+	done    bool
+	qc      []byte
+}
+
+func (s *kSniff) Read(p []byte) (int, error) {
+	n, err := s.Conn.Read(p)
+	s.mu.Lock()
+	defer s.mu.Unlock()
+	if s.done || n == 0 {
+		return n, err
+	}
+	s.buf = append(s.buf, p[:n]...)
+	if !s.version {
+		i := bytes.IndexByte(s.buf, '\n')
+		if i < 0 {
+			return n, err
+		}
+		s.buf, s.version = s.buf[i+1:], true
+	}
+	for len(s.buf) >= 5 {
+		l := int(s.buf[0])<<24 | int(s.buf[1])<<16 | int(s.buf[2])<<8 | int(s.buf[3])
+		if l < 2 || l > 1<<18 {
+			s.done = true
+			break
+		}
+		if len(s.buf) < 4+l {
+			break
+		}
+		pad := int(s.buf[4])
+		if payload := s.buf[5 : 4+l-pad]; len(payload) > 0 {
+			switch payload[0] {
+			case 30:
+				r := &refpeer.R{B: payload[1:]}
+				s.qc = append([]byte{}, r.Str()...)
+				s.done = true
+			case 21:
+				s.done = true
+			}
+		}
+		s.buf = s.buf[4+l:]
+	}
+	if s.done {
+		s.buf = nil
+	}
+	return n, err
+}
+
+// kRand is a ServerConfig.Rand that answers the first 32-byte request made after the client's
+// public value is known (the X25519 scalar of kex.Server) with a scalar that puts K into the class.
+type kRand struct {
+	sn      *kSniff
+	k       c27Case
+	mu      sync.Mutex
+	used    bool
+	reached bool
+}
+
+func (r *kRand) reachedClass() bool { r.mu.Lock(); defer r.mu.Unlock(); return r.reached }
+
+func (r *kRand) Read(p []byte) (int, error) {
+	r.sn.mu.Lock()
+	qc := r.sn.qc
+	r.sn.mu.Unlock()
+	r.mu.Lock()
+	defer r.mu.Unlock()
+	if len(p) != 32 || r.used || len(qc) != 32 {
+		return rand.Read(p)
+	}
+	r.used = true
+	pk, err := ecdh.X25519().NewPublicKey(qc)
+	if err != nil {
+		return rand.Read(p)
+	}
+	var cl kClass
+	for _, c := range kClasses {
+		if c.name == r.k.kclass {
+			cl = c
+		}
+	}
+	for i := 0; i < 40*cl.rarity; i++ {
+		rand.Read(p)
+		sk, err := ecdh.X25519().NewPrivateKey(p)
+		if err != nil {
+			continue
+		}
+		sec, err := sk.ECDH(pk)
+		if err != nil {
+			continue
+		}
+		if cl.pred(new(big.Int).SetBytes(sec).Bytes(), 32) {
+			r.reached = true
+			break
+		}
+	}
+	return len(p), nil
 }
